@@ -5,6 +5,8 @@
    mode 0: the process never used call_rcu (no helper thread exists at the fork); mode 1: a call_rcu helper exists.  Every wait is bounded.
    Nested generations: the child brackets a (would-be) fork of its own while its re-created worker is inside a resize (held there by a slow allocator): when
    call_rcu_before_fork() returns the worker must be parked, not inside the resize - in the first process as well as in a fork child.
+   mode 2: the process owns tables of TWO flavors (memb and bp): the hash table registers its fork handlers with each flavor that owns a table, so the documented
+   handlers of both flavors bracket the fork (nested), and afterwards tables of both flavors must be usable in parent and child; a watchdog thread bounds the bracket.
    Growth by lazy resize is deliberately not used as the sign of life: a lazy resize request can be lost for a reason unrelated to fork (DESIGN.md 9.3). */
 #define _GNU_SOURCE
 #define RCU_MEMBARRIER
@@ -67,7 +69,39 @@ static int use_tables(struct cds_lfht *ht, struct ent *e, const char *who, int r
   int k; for(k=0;k<250;k++){ if(__sync_fetch_and_add(&live,0)<=live0) break; usleep(20000); }
   if(k==250){ printf("BUG %s round %d: the memory of a destroyed auto-resize table was not released within 5 s (%ld blocks outstanding): no worker thread serves the hash table work queue\n",who,round,__sync_fetch_and_add(&live,0)-live0); b=1; }
   return b; }
+/* bp flavor, second compilation unit (fork_lfht_bp.c) */
+extern const struct rcu_flavor_struct *bp_flavor(void); extern void bp_read_lock(void), bp_read_unlock(void), bp_synchronize_rcu(void);
+extern void bp_call_rcu_before_fork(void), bp_call_rcu_after_fork_parent(void), bp_call_rcu_after_fork_child(void);
+static volatile long progress; static const char *volatile stage="";
+static void *watchdog(void *a){ (void)a; long last=-1; int idle=0; for(;;){ usleep(500000); long p=progress; if(p==last){ if(++idle>=30){ printf("BUG two-flavor fork bracket: no progress for 15 s at stage \"%s\" (the forking thread hangs inside the fork handlers)\n",stage); fflush(stdout); _exit(3); } } else { idle=0; last=p; } } return 0; }
+static int use_bp_table(struct cds_lfht *hb, struct ent *e, const char *who, int round){ int b=0;
+  bp_read_lock();
+  for(int i=0;i<NN;i++){ e[i].key=i; cds_lfht_node_init(&e[i].n); cds_lfht_add(hb,(unsigned long)i*2654435761UL,&e[i].n); }
+  for(int i=0;i<NN;i++){ struct cds_lfht_iter it; cds_lfht_lookup(hb,(unsigned long)i*2654435761UL,match,&i,&it); if(cds_lfht_iter_get_node(&it)!=&e[i].n){ printf("BUG %s round %d: lookup of key %d in the bp table fails\n",who,round,i); b=1; break; } }
+  for(int i=0;i<NN;i++) if(cds_lfht_del(hb,&e[i].n)){ printf("BUG %s round %d: del of key %d in the bp table fails\n",who,round,i); b=1; break; }
+  bp_read_unlock(); bp_synchronize_rcu(); return b; }
+static int two_flavors(int rounds){ int bad=0; pthread_t wd; pthread_create(&wd,NULL,watchdog,NULL);
+  struct ent *e=calloc(NN,sizeof *e), *e2=calloc(NN,sizeof *e2);
+  struct cds_lfht *ht=cds_lfht_new(1,1,0,CDS_LFHT_AUTO_RESIZE,NULL);
+  struct cds_lfht *hb=_cds_lfht_new(1,1,0,CDS_LFHT_AUTO_RESIZE,NULL,bp_flavor(),NULL);
+  if(!ht||!hb){ printf("BUG cds_lfht_new failed\n"); return 1; }
+  for(int r=0;r<rounds && !bad;r++){
+    fflush(stdout); stage="call_rcu_before_fork (memb)"; progress++; call_rcu_before_fork(); stage="call_rcu_before_fork (bp)"; progress++; bp_call_rcu_before_fork(); stage="fork"; progress++;
+    pid_t p=fork();
+    if(p==0){ alarm(20); bp_call_rcu_after_fork_child(); call_rcu_after_fork_child();
+      rcu_read_lock(); rcu_read_unlock(); synchronize_rcu();
+      int b=use_tables(ht,e,"child (two flavors)",r); if(!b) b=use_bp_table(hb,e2,"child (two flavors)",r);
+      fflush(stdout); _exit(b?3:0); }
+    stage="call_rcu_after_fork_parent (bp)"; progress++; bp_call_rcu_after_fork_parent(); stage="call_rcu_after_fork_parent (memb)"; progress++; call_rcu_after_fork_parent(); stage="use"; progress++;
+    bad|=use_tables(ht,e,"parent (two flavors)",r); progress++; bad|=use_bp_table(hb,e2,"parent (two flavors)",r); progress++;
+    int st=-2; for(int k=0;k<500;k++){ progress++; int s2=0; pid_t q=waitpid(p,&s2,WNOHANG); if(q==p){ st=s2; break; } usleep(50000); }
+    if(st==-2){ kill(p,SIGKILL); waitpid(p,&st,0); printf("BUG child round %d (two flavors): hangs (killed after 25 s)\n",r); bad=1; }
+    else if(WIFSIGNALED(st)){ printf("BUG child round %d (two flavors): killed by signal %d (14 = did not finish within 20 s)\n",r,WTERMSIG(st)); bad=1; }
+    else if(WEXITSTATUS(st)){ printf("BUG child round %d (two flavors): reported a failure\n",r); bad=1; }
+    printf("round %d mode 2 %s\n",r,bad?"failed":"ok"); }
+  fflush(stdout); _exit(bad); }
 int main(int argc,char**argv){ int rounds=argc>1?atoi(argv[1]):3, mode=argc>2?atoi(argv[2]):0; int bad=0;
+  if(mode==2){ rcu_register_thread(); app_thread=pthread_self(); return two_flavors(rounds); }
   rcu_register_thread(); app_thread=pthread_self(); int nbusy=0, nbr=0;
   struct ent *e=calloc(NN,sizeof *e);
   if(mode){ static struct rcu_head h; call_rcu(&h,cbf); rcu_barrier(); }
